@@ -83,8 +83,16 @@ bool DyndepLoader::UpdateEdge(Edge* edge, Dyndeps const* dyndeps,
   // Add dyndep-discovered bindings to the edge.
   // We know the edge already has its own binding
   // scope because it has a "dyndep" binding.
-  if (dyndeps->restat_)
+  if (dyndeps->restat_) {
+    // Give the edge a binding scope of its own if it does not have one (its
+    // "dyndep" binding may be inherited from the rule): the binding must not
+    // leak into the enclosing scope, where other edges would see it.
+    if (edge->env_is_enclosing_scope_) {
+      edge->env_ = new BindingEnv(edge->env_);
+      edge->env_is_enclosing_scope_ = false;
+    }
     edge->env_->AddBinding("restat", "1");
+  }
 
   // Add the dyndep-discovered outputs to the edge.
   edge->outputs_.insert(edge->outputs_.end(),
